@@ -180,6 +180,15 @@ func (P *Prog) VerifyFunc(f *ssa.Function, c *Contract) *Trans {
 
 func (t *Trans) frameObligations(fr *Frame, stF, st0 State, retCond string) {
 	c := fr.contract
+	for _, x := range c.Extra["unchanged"] {
+		for _, comp := range sxAtoms(x) {
+			now, before := stF.get(comp), st0.get(comp)
+			if now == before {
+				continue
+			}
+			t.oblige("frame", fmt.Sprintf("%s#frame.unchanged.%s", fr.path, comp), append([]string{}, fr.tags...), retCond, fmt.Sprintf("(= %s %s)", now, before), fr.fn.Pos(), comp+" is declared unchanged as a whole (fresh locations included)")
+		}
+	}
 	for _, comp := range stF.keys() {
 		now, before := stF.get(comp), st0.get(comp)
 		if now == before || comp == "alloc" || strings.HasPrefix(comp, "IT_") {
